@@ -250,6 +250,8 @@ class Goebner:
             if t.operator_type == BinaryOperator.Minus:
                 return cast(Expr, lhs - rhs)
             if t.operator_type == BinaryOperator.Modulo:
+                if rhs == 0:  # undefined for clingo, sympy raises ZeroDivisionError
+                    return None
                 return cast(Expr, lhs % rhs)
             if t.operator_type == BinaryOperator.Multiplication:
                 return cast(Expr, lhs * rhs)
